@@ -4,6 +4,8 @@ CONSTANTS
   MaxEpoch = 3
   MaxFaults = 1
   Variant = "asbuilt"
+  Features = {"migration","failover","dup","restart","crash","lostreply"}
+CONSTRAINT AtMost3
 INVARIANTS TypeOK NeverAhead CommitOnce DstBeforeSrc Owned NoLoneFailover
-PROPERTIES NoOlder
+PROPERTIES NoOlder 
 CHECK_DEADLOCK FALSE
